@@ -2207,7 +2207,10 @@ class Network(Cached):
 
         :rtype: float between 0 and 1
         """
-        return self.graph.transitivity_undirected()
+        #  (Does not use directionality information: reciprocal links of a
+        #  directed network count as one link.)
+        graph = self.graph.as_undirected() if self.directed else self.graph
+        return graph.transitivity_undirected()
 
     def higher_order_transitivity(self, order, estimate=False):
         """
